@@ -59,11 +59,22 @@ static std::string run(std::vector<std::string> const &w)
 		std::string pr="none"; int pcalls=0;
 		if(g_probe.count(w[1]) && g_probe[w[1]].has_ref) {
 			probe_def &d=g_probe[w[1]];
-			if(died) { pr="dead"; s=&g_farm.get(w[1]); }   // rebuild; the verdict for this case is already "dead"
+			if(died) {
+				// rebuild; the verdict for this case is already "dead".  The new service listens elsewhere:
+				// take a fresh reference answer for the probes that follow.
+				pr="dead"; s=&g_farm.get(w[1]);
+				outcome po=play(*s,d.segs,d.mode);
+				if(!po.reply.empty()) d.ref=po.reply;
+			}
 			else {
 				outcome po=play(*s,d.segs,d.mode);
 				pr = (po.reply==d.ref && !po.timeout) ? "ok" : "bad";
-				if(s->dead) { pr="dead"; std::lock_guard<std::mutex> g(s->mx); exc=vh::hex(s->exc); }
+				if(s->dead) {
+					pr="dead"; { std::lock_guard<std::mutex> g(s->mx); exc=vh::hex(s->exc); }
+					s=&g_farm.get(w[1]);
+					outcome po2=play(*s,d.segs,d.mode);
+					if(!po2.reply.empty()) d.ref=po2.reply;
+				}
 			}
 		}
 		// late effects of the case (a second completion, a worker still running) are attributed to the case
